@@ -7,6 +7,9 @@ Database.operations (index manager, spatial indexes) is captured and restored th
 level down, every field of Operations that statement execution writes must be read under begin_transaction and written
 under rollback_transaction (the index manager: its definitions are captured and the indexes rebuilt over the restored
 tables; the spatial indexes: cloned and assigned back).
+(restore) Operations::restore rebuilds from the captured definitions, not from what the transaction left behind: its loop
+over the registered indexes drops on every iteration, and its loop over the captured definitions re-creates on every
+iteration (an index dropped and re-created under the same name inside the transaction must not survive by its name).
 (own) outside the COMMIT/ROLLBACK executors a function ends (rolls back or commits) only a transaction that its
 own begin_transaction opened on the same path."""
 from ..engine.callgraph import CallGraph
@@ -252,3 +255,42 @@ def run(ctx):
                             'failing statement inside BEGIN ... would end (roll back or commit) the user\'s transaction', f'{f.file}:{t["l"]}')
     ctx.floor('C13.own transaction-ending calls outside the transaction executors', nown, 2)
     ctx.assumptions.append('derived Clone of Catalog/Table/HashMap is a deep copy')
+
+
+_run_main = run
+
+
+def run(ctx):
+    _run_main(ctx)
+    restore_rule(ctx)
+
+
+def restore_rule(ctx):
+    import re
+    from ..engine.paths import loop_headers, search
+    from ..engine.symexpr import Sym
+    prog = ctx.prog
+    ctx.rule('C13.restore', 'Operations::restore: every iteration of the loop over list_indexes() passes IndexManager::drop_index, every iteration of the loop over the '
+             'captured definitions passes Operations::create_index (no iteration path reaches the loop head again without it)')
+    f = ctx.fn('vibesql_storage::database::operations::Operations::restore')
+    s = Sym(f)
+    g = cfg(f)
+    lh = loop_headers(f)
+    found = {}
+    for h, (sw, none_t) in lh.items():
+        it = s.op(f.blocks[h]['t']['args'][0]) if f.blocks[h]['t'].get('args') else ''
+        kind = 'drop' if 'list_indexes(' in it else 'create' if re.search(r'snapshot\.indexes|\.indexes\b', it) else None
+        if kind is None:
+            continue
+        want = 'drop_index' if kind == 'drop' else 'create_index'
+        must = {i for i, t in f.calls() if (callee_name(t) or '').endswith('::' + want)}
+        body = [x for x in g.succ[sw] if x != none_t and f.blocks[x]['t']['k'] != 'unreachable']
+        reached, _ = search(f, body, must, loop_model=False)
+        found[kind] = bool(must) and h not in reached
+    ctx.instance('restore/loops', {'rule': 'C13.restore', 'fn': f.nice, 'drop_loop_drops_every_index': found.get('drop'), 'create_loop_recreates_every_definition': found.get('create')})
+    if not found.get('drop'):
+        ctx.finding('restore/drop-all', 'Operations::restore no longer drops every registered index before rebuilding: an index created inside the rolled-back transaction (or re-created '
+                    'under an old name with another definition) survives ROLLBACK', f.loc)
+    if not found.get('create'):
+        ctx.finding('restore/create-all', 'Operations::restore no longer re-creates every captured index definition: definitions whose name is still registered are kept as the '
+                    'transaction left them (DROP INDEX i; CREATE INDEX i ON t(b) inside the transaction survives ROLLBACK)', f.loc)
